@@ -14,6 +14,9 @@ var checks = map[string]checkDef{
 	"C04": {Harness: "c03", Instrument: true},
 	"C15": {Harness: "c15", Instrument: true},
 	"C16": {Harness: "c16", Instrument: true},
+	"C11": {Harness: "c11"},
+	"C12": {Harness: "c12"},
+	"C13": {Harness: "c13"},
 	"C14": {Harness: "c14"},
 	"C17": {Harness: "c17"},
 	"C18": {Harness: "c18", Instrument: true},
